@@ -276,10 +276,12 @@ func startCluster(cfg histCfg) (*cluster, error) {
 	return c, nil
 }
 
-// admin runs f against live member hosts (round robin) until it succeeds.
+// admin runs f against live member hosts (round robin) until it succeeds or about
+// tries/4 seconds have passed (a refusal while there is no leader returns at once).
 func (c *cluster) admin(tries int, timeout time.Duration, f func(ctx context.Context, nh *dragonboat.NodeHost) error) error {
 	var err error = errors.New("no live member host")
-	for try := 0; try < tries; try++ {
+	by := time.Now().Add(time.Duration(tries) * 250 * time.Millisecond)
+	for try := 0; time.Now().Before(by); try++ {
 		i := try % maxHosts
 		nh := c.get(i)
 		if r := c.roleOf(i); nh == nil || (r != roleVoter && r != roleNonVoting) {
@@ -340,6 +342,13 @@ func (c *cluster) join(i int, role int, tries int) bool {
 	if !in {
 		c.note("join_not_added")
 		return false
+	}
+	if c.cfg.onDisk && c.cfg.lateJoin {
+		// the joiner needs a streamed snapshot; its snapshot port is not reachable
+		// for the first moments: the leader's first attempt to connect fails, the
+		// circuit breaker for the address opens, a retried stream job finds no sink,
+		// and the leader has to keep retrying until the stream gets through
+		c.net.refuseSnapshotsTo(c.addrs[i], 1)
 	}
 	nh, err := dragonboat.NewNodeHost(c.nhcs[i])
 	if err != nil {
@@ -1044,6 +1053,46 @@ func (c *cluster) nemesis(stop <-chan struct{}, wg *sync.WaitGroup) {
 	}
 }
 
+// streamRetryScenario (on-disk kind, after the faults): the non-voting replica is
+// cut off until the leader has compacted its log beyond what the replica holds,
+// and the first attempts to open a snapshot connection to it are refused. The
+// leader's first stream job fails to connect, the circuit breaker for the address
+// opens, a retried stream job finds no sink at all; the leader has to get through
+// both and stream the snapshot once the connection can be made. Nothing else
+// happens in the shard meanwhile (no fault, no leader change), so a leader that
+// gives up streaming shows as a replica that never catches up.
+func (c *cluster) streamRetryScenario() {
+	const t = 3
+	if c.get(t) == nil || c.roleOf(t) != roleNonVoting {
+		c.note("stream_retry_skipped")
+		return
+	}
+	for j := range c.addrs {
+		if j != t {
+			c.net.block(c.addrs[t], c.addrs[j])
+			c.net.block(c.addrs[j], c.addrs[t])
+		}
+	}
+	need := int(c.cfg.snapEvery) + 15
+	by := time.Now().Add(6 * time.Second)
+	done := 0
+	for try := 0; done < need && time.Now().Before(by); try++ {
+		i := try % 3
+		nh := c.get(i)
+		if nh == nil || c.roleOf(i) != roleVoter {
+			continue
+		}
+		if c.doWrite(0, i, nh, uint64(1+done%c.cfg.keys), uint64(2*done+4), false, time.Second, nil, nil).code == c.codes["completed"] {
+			done++
+		} else {
+			time.Sleep(10 * time.Millisecond)
+		}
+	}
+	c.net.refuseSnapshotsTo(c.addrs[t], 2)
+	c.net.heal()
+	c.note(fmt.Sprintf("stream_retry_scenario_after_%d_writes", done))
+}
+
 type histResult struct {
 	ops     []*opRec
 	log     []applyRec // one per index, index order
@@ -1082,6 +1131,9 @@ func runHistory(cfg histCfg) (*histResult, error) {
 	t2 := time.Now()
 	// messages delayed by the network are delivered within 30 ms of the heal
 	time.Sleep(40 * time.Millisecond)
+	if cfg.onDisk && cfg.snapEvery > 0 {
+		c.streamRetryScenario()
+	}
 	// settle: one more write, then a linearizable read on every host that runs a
 	// replica of the final membership, so that every replica has applied the whole log
 	settled := true
@@ -1114,7 +1166,7 @@ func runHistory(cfg histCfg) (*histResult, error) {
 			ok := false
 			readBy := time.Now().Add(24 * time.Second)
 			for settled && !ok && time.Now().Before(readBy) {
-				ok = c.doRead(0, i, nh, 1, false, 3*time.Second).code == c.codes["completed"]
+				ok = c.doRead(0, i, nh, 1, false, time.Second).code == c.codes["completed"]
 				if !ok {
 					time.Sleep(20 * time.Millisecond)
 				}
@@ -1204,6 +1256,7 @@ func runHistory(cfg histCfg) (*histResult, error) {
 	applies := append([]applyRec(nil), c.rec.applies...)
 	bad := append([]string(nil), c.rec.bad...)
 	c.notes["quiesce_entered"] = int(atomic.SwapInt64(&quiesceEntered, 0))
+	c.notes["snapshot_connections_refused"] = int(atomic.LoadInt64(&c.net.snapRefused))
 	c.notes["sm_streamed_snapshots"] = c.rec.streams
 	c.notes["sm_recovered_snapshots"] = c.rec.recovers
 	c.rec.mu.Unlock()
